@@ -234,8 +234,8 @@ impl Property for C13 {
                 }
                 Case { scene, limits, start_u, goal_u, step_deg, max_try, rng_seed, cancel, cancel_at, close: None }
             });
-        // close pairs: goal within a fraction of one step of the start (or equal to it), with every cancellation mode
-        let near = (fine_for_close(), prop_oneof![1 => Just(0.0), 3 => 0.05..0.95f64, 1 => 1.0..3.0f64], 0u8..3).prop_map(|(mut c, f, cancel)| {
+        // close pairs: goal within a fraction of one step of the start (equal to it, or a hair - 1e-8..1e-6 rad - apart), with every cancellation mode
+        let near = (fine_for_close(), prop_oneof![1 => Just(0.0), 3 => 0.05..0.95f64, 1 => 1.0..3.0f64, 2 => 1e-7..2e-5f64], 0u8..3).prop_map(|(mut c, f, cancel)| {
             c.close = Some(f);
             c.cancel = cancel;
             c.cancel_at = 1;
@@ -320,7 +320,7 @@ impl Property for C13 {
                     ctx.exclude("close goal collides");
                     return Ok(());
                 }
-                ctx.class(if f == 0.0 { "close-pair:start==goal" } else if f < 1.0 { "close-pair:within one step" } else { "close-pair:1..3 steps" });
+                ctx.class(if f == 0.0 { "close-pair:start==goal" } else if f < 1e-4 { "close-pair:a hair apart (goal differs from the start by rounding-size amounts, well below a micro-radian..micro-radians)" } else if f < 1.0 { "close-pair:within one step" } else { "close-pair:1..3 steps" });
                 (a, b)
             }
         };
